@@ -77,7 +77,12 @@ func built(x *mon.Ctx, tiersOnly bool) {
 	if err != nil {
 		x.HarnessError("seed artefacts: %v", err)
 	}
-	r := &runner{x: x, gs: newGuards(), st: newSites()}
+	// every constructed input in both guard placements, in both tiers (the workload is small): where the payload
+	// is the tail of the input and the parser slices it in place (raw SM9 C2, the SM2 enveloped key's BIT STRING,
+	// cfca SM4-CBC, cryptobyte-based ASN.1) the payload itself ends at the guard page. Containers read with
+	// encoding/asn1 (PKCS#8, PKCS#7, the cfca SM2 blob) copy their OCTET STRINGs: an over-read of the payload is not
+	// observable through them.
+	r := &runner{x: x, gs: newGuards(), st: newSites(), bothAlways: true}
 	tierFamilies := map[string]bool{"sm9-authenticated-c2-size/raw": true, "sm9-authenticated-c2-size/asn1": true, "sm2-enveloped-key-sizes": true,
 		"pkcs8-pbes2-block-cipher-sizes": true, "pkcs8-pbes2-gcm-parameter-sizes": true, "pkcs7-encrypted-data-sizes": true,
 		"cfca-sm4cbc-lengths": true, "cfca-sm2-blob-key-sizes": true}
@@ -108,6 +113,24 @@ func built(x *mon.Ctx, tiersOnly bool) {
 	}
 }
 
+// payloadSizes: every length 0..small, then every whole number of blocks up to 9 (an IV plus 1..8 blocks of
+// payload) with both neighbours: each decryptor sees 1..8 blocks - every phase of the 8/4/1-block assembly loops -
+// ending at the guard page.
+func payloadSizes(small int) []int {
+	var out []int
+	for n := 0; n <= small; n++ {
+		out = append(out, n)
+	}
+	for b := 16; b <= 144; b += 16 {
+		for _, n := range []int{b - 1, b, b + 1} {
+			if n > small {
+				out = append(out, n)
+			}
+		}
+	}
+	return out
+}
+
 var someSizes = []int{0, 1, 2, 7, 8, 9, 15, 16, 17, 31, 32, 33, 47, 48, 49, 63, 64, 65}
 
 func families(w *world) []*family {
@@ -123,7 +146,7 @@ func families(w *world) []*family {
 		fam := &family{name: "sm9-authenticated-c2-size/" + enc, params: names("xor", "ecb", "cbc", "cfb", "ofb")}
 		fam.gen = func(c *mon.Case, mode string, emit func(string, []byte)) {
 			opts := sm9modes[mode]
-			for n := 0; n <= 40; n++ {
+			for _, n := range payloadSizes(40) {
 				c2 := pat(c.R, n)
 				k1 := opts.GetKeySize(c2)
 				key, err := sm9.UnwrapKey(w.encUser, w.uid, c1, k1+sm3.Size)
@@ -337,7 +360,7 @@ func families(w *world) []*family {
 			case "encrypted-private-key":
 				ek := encKey(symKey)
 				for _, a := range [][]byte{alg, dSeq(dOID(oidSM4), dNull), dSeq(dOID(oidSM4ECB))} {
-					for n := 0; n <= 50; n++ {
+					for _, n := range payloadSizes(50) {
 						for _, unused := range []byte{0, 1, 7} {
 							emit(fmt.Sprintf("len=%d/unused=%d", n, unused), dSeq(a, ek, dBits(0, pubB), dBits(unused, pat(c.R, n))))
 						}
@@ -586,7 +609,7 @@ func families(w *world) []*family {
 	// ---- CFCA ---------------------------------------------------------------------------
 	add(&family{name: "cfca-sm4cbc-lengths", params: names("all"),
 		gen: func(c *mon.Case, p string, emit func(string, []byte)) {
-			for n := 0; n <= 70; n++ {
+			for _, n := range payloadSizes(70) {
 				emit(fmt.Sprintf("len=%d", n), pat(c.R, n))
 			}
 			// plaintexts whose decryption has every padding value: encrypt then cut
@@ -618,7 +641,7 @@ func families(w *world) []*family {
 					}
 				}
 			} else {
-				for n := 0; n <= 50; n++ {
+				for _, n := range payloadSizes(50) {
 					emit(fmt.Sprintf("ct=%d", n), blob(pat(c.R, n)))
 				}
 			}
